@@ -130,6 +130,11 @@ func (c *ppCtx) autocut(scores []float32, cutoff int, render string) {
 }
 
 func (c *ppCtx) fuse(v, t [][2]int, kind comet.FusionKind, wv, wt int) {
+	// the reciprocal-rank constant in quarter units: 60 mostly, sometimes a small or fractional legal value (K > 0)
+	k4 := 240
+	if c.rng.Intn(3) == 0 {
+		k4 = []int{1, 2, 3, 4, 40, 6}[c.rng.Intn(6)]
+	}
 	vm, tm := map[uint32]float64{}, map[uint32]float64{}
 	for _, p := range v {
 		vm[uint32(p[0])] = c.val(p[1])
@@ -137,7 +142,7 @@ func (c *ppCtx) fuse(v, t [][2]int, kind comet.FusionKind, wv, wt int) {
 	for _, p := range t {
 		tm[uint32(p[0])] = c.val(p[1])
 	}
-	f, err := comet.NewFusion(kind, &comet.FusionConfig{VectorWeight: float64(wv) / 2, TextWeight: float64(wt) / 2, K: 60})
+	f, err := comet.NewFusion(kind, &comet.FusionConfig{VectorWeight: float64(wv) / 2, TextWeight: float64(wt) / 2, K: float64(k4) / 4})
 	if err != nil {
 		panic(err)
 	}
@@ -161,7 +166,7 @@ func (c *ppCtx) fuse(v, t [][2]int, kind comet.FusionKind, wv, wt int) {
 			}
 		}
 	})
-	c.t.ev("fuse", E{"kind": string(kind), "wv": wv, "wt": wt, "v": nz2(v), "t": nz2(t), "out": out, "intact": intact, "panic": p, "s": c.s, "u": c.u})
+	c.t.ev("fuse", E{"kind": string(kind), "wv": wv, "wt": wt, "v": nz2(v), "t": nz2(t), "out": out, "intact": intact, "panic": p, "s": c.s, "u": c.u, "k4": k4})
 }
 
 func (c *ppCtx) merge(in [][2]int) {
